@@ -186,6 +186,55 @@ class Ctx:
             raise Infra("TLC produced no states in %s; see %s\n%s" % (name, out, tail(out)))
         return res
 
+    def tlc_many(self, jobs, parallel=4):
+        """Run several TLC jobs (dicts of tlc() keyword arguments) concurrently; returns results in order."""
+        from concurrent.futures import ThreadPoolExecutor
+        with ThreadPoolExecutor(max_workers=parallel) as ex:
+            futs = [ex.submit(lambda j=j: self.tlc(**j)) for j in jobs]
+            return [f.result() for f in futs]
+
+    def validate_traces(self, module, base, nshards, constants, what, timeout=3000, workers=2):
+        """Direction B: run <module> over every shard <base>.<k> (each trace its own initial state,
+        tlc -continue). Every rejected trace becomes a candidate whose replay record is the matching
+        line of <base>.replay.<k>. Returns the number of traces accepted."""
+        jobs = []
+        shards = []
+        for k in range(nshards):
+            f = "%s.%d" % (base, k)
+            if not os.path.exists(f) or os.path.getsize(f) == 0:
+                continue
+            local = os.path.basename(f)
+            if os.path.dirname(os.path.abspath(f)) != os.path.abspath(self.specdir):
+                shutil.copy(f, os.path.join(self.specdir, local))
+            cfg = "INIT Init\nNEXT Next\nINVARIANT Accepted\nCHECK_DEADLOCK FALSE\nCONSTANTS\n  File = \"%s\"\n%s" % (
+                local, "".join("  %s = %s\n" % kv for kv in constants.items()))
+            jobs.append(dict(module=module, cfg_text=cfg, name="%s_%s_%d" % (module, os.path.basename(base).split(".")[0], k),
+                             workers=workers, timeout=timeout, cont=True, expect_clean=False))
+            shards.append(k)
+        results = self.tlc_many(jobs, parallel=max(1, NCPU // workers))
+        accepted = 0
+        for k, r in zip(shards, results):
+            ntr = sum(1 for _ in open("%s.%d" % (base, k)))
+            rejected = {}
+            for v in r["violations"]:
+                m = re.search(r"tid = (\d+)", v["text"])
+                m2 = re.findall(r'verdict = "([^"]*)"', v["text"])
+                if m:
+                    rejected[int(m.group(1))] = m2[-1] if m2 else "?"
+            if r["distinct"] != 2 * ntr:
+                raise Infra("trace validation %s: %d traces but %d distinct states (expected %d)" % (r["name"], ntr, r["distinct"], 2 * ntr))
+            accepted += ntr - len(rejected)
+            if rejected:
+                lines = open("%s.replay.%d" % (base, k)).read().splitlines()
+                for tid, verdict in sorted(rejected.items()):
+                    rec = json.loads(lines[tid - 1])
+                    sig = {"class": verdict}
+                    if "input" in rec and len(rec["input"]) <= 400:
+                        sig["input"] = rec["input"]
+                    self.add_candidate(sig, rec, "%s: specification rejects the recorded execution: %s; %s" % (what, verdict, summarize(rec)))
+        self.traces += accepted
+        return accepted
+
     def absorb(self, res):
         """Fold a harness Result into the evidence accumulators and candidate list."""
         self.evaluations += res.get("evaluations", 0)
@@ -292,6 +341,19 @@ class Ctx:
             log("too many unreproduced candidates: infrastructure trouble")
             sys.exit(2)
         sys.exit(1 if violations else 0)
+
+
+def summarize(rec):
+    out = {}
+    for k, v in rec.items():
+        if k == "input" and isinstance(v, list):
+            try:
+                out[k] = bytes(v[:200]).decode("latin-1")
+            except (ValueError, TypeError):
+                out[k] = v[:200]
+        else:
+            out[k] = v
+    return json.dumps(out)[:700]
 
 
 def tail(path, n=40):
